@@ -162,11 +162,11 @@ def specCycle (f : MockFn) (log : List Nat) (w0 : Bool × Nat) (c : MCycle) : (L
   ((log ++ app, lastWire w c.after),
    { done := done, applied := app, ret := if done then some (f.ret log w.2) else none })
 
-def specRun (f : MockFn) (log : List Nat) (w0 : Bool × Nat) : List MCycle → List Nat × List MSpec
+def specRun (F : Nat → MockFn) (log : List Nat) (w0 : Bool × Nat) : List MCycle → List Nat × List MSpec
   | [] => (log, [])
   | c :: cs =>
-    let (st, o) := specCycle f log w0 c
-    let (l, os) := specRun f st.1 st.2 cs
+    let (st, o) := specCycle (F c.x) log w0 c
+    let (l, os) := specRun F st.1 st.2 cs
     (l, o :: os)
 
 /-- from the re-enable to the clock edge -/
@@ -198,14 +198,14 @@ theorem cycle_spec (f : MockFn) (s : MState) (c : MCycle) (hs : s.mock.en = fals
     rw [harg] at this
     simp [this.1, this.2]
 
-theorem run_spec (f : MockFn) (cs : List MCycle) (s : MState) (hs : s.mock.en = false) :
-    (MState.run f s cs).1.mock.log = (specRun f s.mock.log (s.req, s.arg) cs).1 ∧
-    (MState.run f s cs).2.map MOut.view = (specRun f s.mock.log (s.req, s.arg) cs).2 := by
+theorem run_spec (F : Nat → MockFn) (cs : List MCycle) (s : MState) (hs : s.mock.en = false) :
+    (MState.run F s cs).1.mock.log = (specRun F s.mock.log (s.req, s.arg) cs).1 ∧
+    (MState.run F s cs).2.map MOut.view = (specRun F s.mock.log (s.req, s.arg) cs).2 := by
   induction cs generalizing s with
   | nil => simp [MState.run, specRun]
   | cons c cs ih =>
-    obtain ⟨h1, h2, h3⟩ := cycle_spec f s c hs
-    have := ih (s.cycle f c).1 h3
+    obtain ⟨h1, h2, h3⟩ := cycle_spec (F c.x) s c hs
+    have := ih (s.cycle (F c.x) c).1 h3
     simp only [MState.run, specRun, List.map_cons]
     rw [← h1, ← h2]
     simp only at this ⊢
@@ -223,13 +223,13 @@ theorem step_caller (f : MockFn) (s : Sys) (i : CycIn) :
 theorem step_evt (f : MockFn) (s : Sys) (i : CycIn) :
     (s.step f i).2.evt = (s.caller.step (s.step f i).2.env).2.evt := rfl
 
-theorem sys_caller (f : MockFn) (is : List CycIn) (s : Sys) :
-    (Caller.run s.caller ((Sys.run f s is).map SysOut.env)).map (·.evt) = (Sys.run f s is).map (·.evt) := by
+theorem sys_caller (F : Nat → MockFn) (is : List CycIn) (s : Sys) :
+    (Caller.run s.caller ((Sys.run F s is).map SysOut.env)).map (·.evt) = (Sys.run F s is).map (·.evt) := by
   induction is generalizing s with
   | nil => simp [Sys.run, Caller.run]
   | cons i is ih =>
     simp only [Sys.run, List.map_cons, Caller.run, List.cons.injEq]
-    refine ⟨(step_evt f s i).symm, ?_⟩
+    refine ⟨(step_evt (F i.x) s i).symm, ?_⟩
     rw [← step_caller]
     exact ih _
 
